@@ -9,8 +9,10 @@ from . import _reg
 ID = "C08"
 P = "Webauthn.Props.C08."
 THEOREMS = [P + n for n in ("returned_key_decodes", "chain", "cross", "returned_key_is_sent_key", "returned_key_fixed_point")] + \
-           ["Webauthn.reencode_stable", "Webauthn.Cbor.dec_wf", "Webauthn.Cbor.dec_enc"]
-LEAN_TARGETS = ["Props.C08"]
+           ["Webauthn.reencode_stable", "Webauthn.Cbor.dec_wf", "Webauthn.Cbor.dec_enc"] + \
+           ["Webauthn.Props.Examples.chain_example", "Webauthn.Props.Examples.reg_accepts"]
+AUDIT_IMPORTS = ["Props.Examples"]
+LEAN_TARGETS = ["Props.Examples", "Props.C08"]
 SPEC_FILES = ["Spec/Core.lean"]
 ASSUMPTIONS = ["cross-credential rejection holds under the idealisation UniqueKey (a signature valid under one key is not valid under another)"]
 
